@@ -33,10 +33,10 @@ MANIFEST = {
 }
 
 NOCAP = 99999
-IDS = {1: "a", 2: "a10", 3: "a2", 4: "b:\u00e9"}                      # integer order = string order
+IDS = {1: "a", 2: "a10", 3: "a2", 4: "b:\u00e9", 5: "c", 6: "d"}      # integer order = string order
 INV_IDS = {v: k for k, v in IDS.items()}
-LABELS = {1: "Kappa1", 2: "lambda Two", 3: "MU-3", 4: "nu4\u00e9"}    # lower-cased order = node order
-TAGS = {1: "tango1", 2: "Tango2", 3: "TANGO3", 4: "tango4"}           # all sort after the labels
+LABELS = {1: "Kappa1", 2: "lambda Two", 3: "MU-3", 4: "nu4\u00e9", 5: "Omicron5", 6: "pi6"}    # lower-cased order = node order
+TAGS = {1: "tango1", 2: "Tango2", 3: "TANGO3", 4: "tango4", 5: "Tango5", 6: "tango6"}           # all sort after the labels
 RELS = {1: "supports", 2: "associates", 3: "contradicts", 4: "mystery", 5: "blocks"}
 DYADIC_MULT = {"supports": 1.0, "associates": 0.5, "contradicts": 0.25, "blocks": 0.0}
 GRID_D = {"dyadic": 4194304, "five": 512000}
@@ -61,7 +61,8 @@ def build_store(worlds: List[dict], gids: List[str]):
         sfx = "" if len(worlds) == 1 else f"#{k}"
         lab, tag = set(w["lab"]), set(w["tag"])
         nodes = []
-        for n in (3, 1, 4, 2):                                        # listing order is not id order
+        nn = int(w.get("N", 4))
+        for n in [x for x in (3, 1, 6, 4, 2, 5) if x <= nn]:           # listing order is not id order
             tags: List[Any] = []
             if n in tag:
                 tags.append(TAGS[n] + sfx)
@@ -78,7 +79,7 @@ def build_store(worlds: List[dict], gids: List[str]):
             store.upsert_edges(gid, edges)
         else:
             store.ensure(gid)
-        for n in (1, 2, 3, 4):
+        for n in range(1, nn + 1):
             lb = (LABELS[n] + sfx)
             parts.append(lb.upper() if n in lab else lb[:-1] + "_")   # near miss when absent
             tg = TAGS[n] + sfx
@@ -195,7 +196,7 @@ def direct_clauses(a: dict, w: dict) -> List[Tuple[str, dict, str]]:
     bad = [i for i in ids if i not in ok]
     if bad:
         fails.append(("ReachableWithinCaps", {"cause": "unreachable touched"}, f"touched {bad} not reachable from seeds {sorted(seeds)} within {min(cp['radius'], layer_cap(cp))} hops"))
-    indeg0 = {IDS[n] for n in (1, 2, 3, 4)} - {d for (_s, d) in edges}
+    indeg0 = {IDS[n] for n in range(1, int(w.get("N", 4)) + 1)} - {d for (_s, d) in edges}
     if (set(ids) & indeg0) != (seeds & indeg0):
         fails.append(("SeedsExact", {"cause": "seed set"}, f"source nodes touched {sorted(set(ids) & indeg0)}, seeds among them {sorted(seeds & indeg0)}"))
     if not seeds and (ids or a["pops"] or a["props"]):
@@ -431,6 +432,18 @@ def cap_sweeps(floors=(F0,)) -> str:
                  caps(it=ITC, ly=LYC, si=SIT), caps(nb=NBS, q=QB), caps(rad=RAD, nb=NBS), caps(q=QB, it=(0, 1, 50), rx=(NOCAP, 1)))
 
 
+# two routes of different length to one node, the longer one over the stronger edges: the node is first reached (and
+# expanded) over the long route and only later over the short one, which must still lower its hop distance so that what
+# lies behind it is within the radius / layer cap - needs 6 nodes
+TWO_ROUTES = shape((1, 2), (2, 3), (3, 5), (1, 4), (4, 5), (5, 6))
+
+
+def families6(quick: bool) -> List[Tuple[str, str]]:
+    w6 = S(W1, W3, WH) if not quick else S(W3, WH)
+    return [("tworoutes", tup(product("dyadic", f"Dress({S(TWO_ROUTES)}, {w6}, {{1}})", "{{1}}", "{{}}",
+                                      union(caps(rad=(2, 3, 4)), caps(rad=(3,), ly=(2, 3))) if not quick else caps(rad=(3, 4)))))]
+
+
 def families(quick: bool) -> List[Tuple[str, str]]:
     """[(name, Worlds expression)] — one TLC run each"""
     allw = S(W1, WM1, WH, WMH, W0, W3, WT18, WT19)
@@ -507,14 +520,16 @@ def check(run) -> None:
                 "InMemoryGraphStore and compared with the spec's final state; groups of worlds as several active graphs of one call; "
                 "random graphs trace-validated; distinct = distinct world / group / trace")
     applicable = 0
-    for name, expr in families(q):
-        consts = {"N": 4, "Worlds": Def(expr)}
+    for name, expr, nn in [(n_, e_, 4) for n_, e_ in families(q)] + [(n_, e_, 6) for n_, e_ in families6(q)]:
+        consts = {"N": nn, "Worlds": Def(expr)}
         cfg = make_cfg(consts, INVARIANTS, [], emit=False, view=None, constraint="EmitCase")
         res = run.tlc("Propagation", cfg, name=f"Propagation_{name}", workers=16 if not q else 8, timeout_s=3000,
                       defs=split_defs(consts), heap="12g" if not q else "4g")
         run.model_must_hold(res)
         worlds = res.emitted
         del res
+        for w in worlds:
+            w["N"] = nn
         outs = pmap(replay_world, worlds)
         for w, fails in zip(worlds, outs):
             run.traces += 1
@@ -553,7 +568,7 @@ def check(run) -> None:
         run.notes.append("naming an active graph id that is not in the store makes t1_propagate create an empty graph under that id "
                          "(get_graph = ensure); outside C12's quantifier (graphs of the store), recorded as an observation only")
     run.exhaustive = True
-    run.constants = {"families": [n for n, _ in families(q)], "N": 4, "D": GRID_D}
+    run.constants = {"families": [n for n, _ in families(q)] + [n + " (N=6)" for n, _ in families6(q)], "N": 4, "D": GRID_D}
     from . import c12_traces
     c12_traces.check(run)
     run.assumptions += [
